@@ -3,8 +3,8 @@ From Coq Require Import List Bool String.
 From VQ.Gen Require Import g_vq_commit.
 Import ListNotations.
 Open Scope string_scope.
-Lemma glue_commit_guard (return_loss has_commit training : bool) :
-  g_vq_commit return_loss has_commit training = (negb return_loss && training && has_commit)%bool.
-Proof. destruct return_loss, has_commit, training; reflexivity. Qed.
-Lemma glue_commit_guard_atoms : g_vq_commit_atoms = ["return_loss"; "self_has_commitment_loss"; "self_training"].
+Lemma glue_commit_guard (has_commit training : bool) :
+  g_vq_commit has_commit training = (training && has_commit)%bool.
+Proof. destruct has_commit, training; reflexivity. Qed.
+Lemma glue_commit_guard_atoms : g_vq_commit_atoms = ["self_has_commitment_loss"; "self_training"].
 Proof. reflexivity. Qed.
